@@ -128,6 +128,27 @@ CHECKS = {
     ),
 }
 
+# sentences appended to the level text (generator families added after the seeded-change rounds, DESIGN.md §7.1–7.3)
+ADDED = {
+    'C01': ' Added: part aligned-contact (p2 states whose only overlap is with an image 1..3 cells away in line with a lattice row, gap 1e-8.8..1e-5; ~1e5 per quick run).',
+    'C04': ' Added: shapes and cells scaled by 10^U(-9,9) (the crate has no unit of length); exact permutation matching.',
+    'C05': ' Added: tiny/huge shapes whose starting cell lies outside its limits; warm starts.',
+    'C06': ' Added: fixed parameters (min = max) at any position, convergence variants, starts outside the bounds.',
+    'C07': " Added: parts boundary / boundary-rare replay the optimiser's Pcg64Mcg stream and place the score difference just on either side of -kT ln(draw), including draws below 1.5e-9 found by scanning ~7e8 draws per quick run.",
+    'C09': ' Added: exact-tie regime (several replicas with bit-identical scores and different parameters).',
+    'C10': ' Added: replication ladders 1,2,3,5,...,144 (8 per quick run) and one ladder up to 6765 replications in every tier.',
+    'C11': ' Added: half of the CLI cases write over existing .json/.svg files of 1..200000 bytes.',
+    'C12': ' Added: families collinear-continuation and aligned-then-perturbed (aligned configurations turned by 0 or 1e-13..1e-1 about the contact point, gaps and lateral offsets log-uniform); 6e6 polygon pairs per quick run.',
+    'C13': ' Added: nearly identical species (sigma, epsilon, cutoff differing by a relative 1e-15..1e-1).',
+    'C14': ' Added: lengths down to 1e-12 and fractions down to 1e-16; a third of the cases evaluate a nearly identical cell right after the first on the same thread, then the first again.',
+    'C15': ' Added: the inert public fields of the site record (letter, num_rotations, mirror flags) are varied through the JSON form.',
+    'C16': ' Added: part histories (2e5 per quick run): built-in reads interleaved on one thread with user-built groups that reuse a built-in name with a truncated/permuted/extended/altered listing.',
+    'C17': ' Added: exhaustive enumeration of all 2.0e6 renderings of single components; runs of up to 700 blanks and strings of up to 1200 characters; the harness links the package with overflow checks on.',
+    'C18': ' Added: per-loop cooling factors down to 1e-20 measured from a score re-centred to exactly 0.',
+    'C19': ' Added: part freeze-thaw with a lean one-parameter state (45 ns per proposal): m*inner all-rejected loops then accepting loops; 2.8e9 proposals per quick run, histories of up to 5e9 proposals (2.2e10 in total) in thorough.',
+    'C20': ' Added: exhaustive small-scope part (1292 configurations), CLI cases with verbosity flags, start-config and unwritable outputs.',
+}
+
 NOT_YET = {}
 
 def main():
@@ -138,6 +159,7 @@ def main():
         pid = p["id"]
         if pid in CHECKS:
             tech, text, note, ref = CHECKS[pid]
+            text = text + ADDED.get(pid, '')
             checks.append({
                 "property_id": pid,
                 "quick_cmd": f"./check {pid} quick",
